@@ -284,7 +284,8 @@ static void* mi_heap_realloc_zero_aligned_at(mi_heap_t* heap, void* p, size_t ne
   }
   else {
     // note: we don't zero allocate upfront so we only zero initialize the expanded part
-    void* newp = mi_heap_malloc_aligned_at(heap,newsize,alignment,offset);
+    // when zeroing, zero the full new block so the bytes between `newsize` and its usable size are zero too
+    void* newp = mi_heap_malloc_zero_aligned_at(heap,newsize,alignment,offset,zero);
     if (newp != NULL) {
       if (zero && newsize > size) {
         // also set last word in the previous allocation to zero to ensure any padding is zero-initialized
